@@ -28,6 +28,10 @@ macro_rules! api_program {
                     write!(f, "V<{}:{}>", self.0, self.1)
                 }
             }
+            /// equality that is not reflexive: `std` may not short-cut comparisons of two handles to
+            /// one allocation unless `T: Eq`
+            #[derive(Debug, PartialEq, PartialOrd, Clone)]
+            struct NanKey(f64, u8);
             struct D(u32);
             impl Drop for D {
                 fn drop(&mut self) {
@@ -65,6 +69,15 @@ macro_rules! api_program {
                     let br: &V = std::borrow::Borrow::borrow(&ra);
                     let ar: &V = ra.as_ref();
                     log(format!("borrow {} {} deref {}", br == &*ra, ar.0, ra.0 + ra.1.len() as i64));
+                    // non-reflexive payload, two handles to ONE allocation (clone, upgraded Weak, raw round trip)
+                    let key = if next() % 2 == 0 { f64::NAN } else { (next() % 5) as f64 };
+                    let n1: Rc<NanKey> = Rc::new(NanKey(key, (next() % 3) as u8));
+                    let n2 = Rc::clone(&n1);
+                    let n3 = Rc::downgrade(&n1).upgrade().unwrap();
+                    let n4 = unsafe { Rc::from_raw(Rc::into_raw(Rc::clone(&n1))) };
+                    let n5: Rc<NanKey> = Rc::new((*n1).clone());
+                    log(format!("nan eq {} {} {} {} ne {} {} cmp {:?} {:?} lt {} le {} gt {} ge {}", n1 == n2, n1 == n3, n1 == n4, n1 == n5,
+                        n1 != n2, n1 != n5, n1.partial_cmp(&n2), n1.partial_cmp(&n5), n1 < n2, n1 <= n2, n1 > n3, n1 >= n4));
                     // Weak::new / default: dangling
                     let w0: Weak<V> = Weak::new();
                     let w1: Weak<V> = Weak::default();
